@@ -26,16 +26,10 @@ type printCase struct {
 }
 
 func runC09(c *Ctx) {
-	n := c.N(1500, 12000)
 	dir := filepath.Join(c.WorkDir, "c09")
 	os.MkdirAll(dir, 0o755)
 	runC09Text(c, dir)
-	var cases []*printCase
-	for i := 0; i < n; i++ {
-		if !c.Want("print", i) {
-			continue
-		}
-		r := c.Rng("print", i)
+	runC09Print(c, dir, "print", c.N(1500, 12000), func(r *RNG) JGenOpts {
 		o := JGenOpts{MaxAccounts: r.Range(2, 7), MaxDays: r.Range(1, 6), Unicode: true, BaseDay: 737000 + r.Intn(1500), SpanDays: Pick(r, []int{0, 3, 30, 200}),
 			ManyDecimals: r.Chance(1, 2), Mutate: r.Chance(1, 12), Accruals: r.Chance(1, 3)}
 		if r.Chance(1, 2) {
@@ -43,6 +37,69 @@ func runC09(c *Ctx) {
 			o.LongPrices, o.ChainPrices, o.ManyPricesPerDay = r.Chance(1, 2), r.Chance(1, 2), r.Chance(1, 2)
 		}
 		o.CaseVariants = true
+		return o
+	})
+	// stream `sizes`: the same journals with wide fields (JGenOpts.Sizes): account names of 30-300 runes, commodity names of 8-40
+	// runes, amounts of 8-40 characters, the lengths clustered around powers of two and typical caps; same comparisons and monitors
+	runC09Print(c, dir, "sizes", c.N(250, 3000), func(r *RNG) JGenOpts {
+		o := JGenOpts{MaxAccounts: r.Range(2, 6), MaxDays: r.Range(1, 4), Unicode: true, BaseDay: 737000 + r.Intn(1500), SpanDays: Pick(r, []int{0, 3, 30, 200}),
+			ManyDecimals: r.Chance(1, 2), Mutate: r.Chance(1, 12), Accruals: r.Chance(1, 4), Sizes: true, CaseVariants: r.Chance(1, 3)}
+		if r.Chance(1, 3) {
+			o.Prices, o.Valuation, o.DupPrices = true, "CHF", r.Chance(1, 2)
+		}
+		return o
+	})
+}
+
+// c09Widths: the longest account name (runes), commodity name (runes) and amount literal (characters) of a journal.
+func c09Widths(j *Journal) (acc, com, amt int) {
+	up := func(p *int, s string, runes bool) {
+		n := len(s)
+		if runes {
+			n = len([]rune(s))
+		}
+		if n > *p {
+			*p = n
+		}
+	}
+	for _, d := range j.Dirs {
+		up(&acc, d.Account, true)
+		up(&com, d.Com, true)
+		up(&com, d.Target, true)
+		up(&amt, d.Price, false)
+		for _, b := range d.Balances {
+			up(&acc, b.Account, true)
+			up(&com, b.Com, true)
+			up(&amt, b.Qty, false)
+		}
+		for _, b := range d.Bookings {
+			up(&acc, b.Credit, true)
+			up(&acc, b.Debit, true)
+			up(&com, b.Com, true)
+			up(&amt, b.Qty, false)
+		}
+	}
+	return
+}
+
+func c09WidthBucket(n int) string {
+	for _, b := range []int{9, 10, 16, 31, 32, 63, 64, 80, 100, 127, 128, 200, 254, 255, 256} {
+		if n <= b {
+			return fmt.Sprintf("le%d", b)
+		}
+	}
+	return "gt256"
+}
+
+// runC09Print: one stream of generated journals through knut print, knut print on the output, knut balance on both; model comparisons and monitors.
+func runC09Print(c *Ctx, dir, stream string, n int, opts func(r *RNG) JGenOpts) {
+	var cases []*printCase
+	for i := 0; i < n; i++ {
+		if !c.Want(stream, i) {
+			continue
+		}
+		r := c.Rng(stream, i)
+		o := opts(r)
 		j, tags := GenJournal(r, o)
 		text, _ := j.Text()
 		f := GenBalFlags(r, j, o.Valuation, BalGenOpts{Valued: true})
@@ -50,8 +107,8 @@ func runC09(c *Ctx) {
 	}
 	parallelFor(len(cases), 16, func(k int) {
 		pc := cases[k]
-		p1 := filepath.Join(dir, fmt.Sprintf("a%d.knut", pc.Idx))
-		p2 := filepath.Join(dir, fmt.Sprintf("b%d.knut", pc.Idx))
+		p1 := filepath.Join(dir, fmt.Sprintf("a-%s%d.knut", stream, pc.Idx))
+		p2 := filepath.Join(dir, fmt.Sprintf("b-%s%d.knut", stream, pc.Idx))
 		os.WriteFile(p1, []byte(pc.Text), 0o644)
 		pc.Code, pc.Out1, pc.Err1 = runKnut(c.KnutBin, 20*time.Second, nil, "print", p1)
 		if pc.Code == 0 {
@@ -86,7 +143,12 @@ func runC09(c *Ctx) {
 				sig = append(sig, t[:4])
 			}
 		}
-		c.Class(fmt.Sprintf("c09/%s/%s/n%s", strings.Fields(impl)[0], strings.Join(dedup(sig), "+"), bucket(len(pc.J.Dirs))))
+		if stream == "sizes" {
+			wa, wc, wq := c09Widths(pc.J)
+			c.Class(fmt.Sprintf("c09sizes/%s/acc-%s/com-%s/amt-%s", strings.Fields(impl)[0], c09WidthBucket(wa), c09WidthBucket(wc), c09WidthBucket(wq)))
+		} else {
+			c.Class(fmt.Sprintf("c09/%s/%s/n%s", strings.Fields(impl)[0], strings.Join(dedup(sig), "+"), bucket(len(pc.J.Dirs))))
+		}
 		if pc.Idx < 2 {
 			c.Sample(map[string]any{"journal": pc.Text, "printed": pc.Out1})
 		}
@@ -94,7 +156,7 @@ func runC09(c *Ctx) {
 			if model == "unsupported" {
 				return
 			}
-			if !c.Compare("print", pc.Idx, "print", in, impl, model) {
+			if !c.Compare(stream, pc.Idx, "print", in, impl, model) {
 				f := &c.Findings[len(c.Findings)-1]
 				if strings.HasPrefix(model, "ok ") {
 					f.Model = clip(UnHex(strings.TrimPrefix(model, "ok ")))
@@ -105,7 +167,7 @@ func runC09(c *Ctx) {
 		// the command model on the SAME input text: Cmd.run .print of a one-file file system (= FromSyntax.printFile of the bytes,
 		// Knut.C09.C09_cmd_print_is_printFile), byte for byte, rejected inputs included
 		bt.Add(func(model string) {
-			if !c.Compare("print", pc.Idx, "print_text", in, impl, model) {
+			if !c.Compare(stream, pc.Idx, "print_text", in, impl, model) {
 				f := &c.Findings[len(c.Findings)-1]
 				if strings.HasPrefix(model, "ok ") {
 					f.Model = clip(UnHex(strings.TrimPrefix(model, "ok ")))
@@ -118,14 +180,14 @@ func runC09(c *Ctx) {
 			if m == "rejected" || m == "unsupported" {
 				return
 			}
-			c.Monitor("print", pc.Idx, "model_print_parse_print_fixpoint", in, m == "ok", "model round trip: "+m)
+			c.Monitor(stream, pc.Idx, "model_print_parse_print_fixpoint", in, m == "ok", "model round trip: "+m)
 		}, "c09roundtrip", pc.J.Wire())
 		if pc.Code == 0 {
-			c.Monitor("print", pc.Idx, "print_output_accepted", in, pc.Code2 == 0, "printed journal is rejected:\n"+pc.Out1)
+			c.Monitor(stream, pc.Idx, "print_output_accepted", in, pc.Code2 == 0, "printed journal is rejected:\n"+pc.Out1)
 			if pc.Code2 == 0 {
-				c.Monitor("print", pc.Idx, "print_fixpoint", in, pc.Out2 == pc.Out1, "print(print(j)) differs:\n"+pc.Out1+"\n---\n"+pc.Out2)
+				c.Monitor(stream, pc.Idx, "print_fixpoint", in, pc.Out2 == pc.Out1, "print(print(j)) differs:\n"+pc.Out1+"\n---\n"+pc.Out2)
 			}
-			c.Monitor("print", pc.Idx, "reports_equal", in, pc.BalCodeA == pc.BalCodeB && pc.BalA == pc.BalB,
+			c.Monitor(stream, pc.Idx, "reports_equal", in, pc.BalCodeA == pc.BalCodeB && pc.BalA == pc.BalB,
 				fmt.Sprintf("balance %s differs between original (exit %d) and printed journal (exit %d):\n%s\n---\n%s", strings.Join(pc.F.Args(), " "), pc.BalCodeA, pc.BalCodeB, pc.BalA, pc.BalB))
 		}
 	}
